@@ -194,6 +194,12 @@ pub trait Monitor: Sync {
     }
     /// Called once after all cases, on the merged collector.
     fn finish(&self, _col: &mut Collector) {}
+    /// Generators whose case count may be multiplied by `--scale` > 1: their index only selects
+    /// configuration classes by modulo and seeds the random parts, so indices beyond the base count
+    /// are fresh cases. Enumerated generators (index = position in a finite table) stay as they are.
+    fn scalable(&self, _gen: &str) -> bool {
+        false
+    }
     /// True if the whole finite input space is enumerated in this tier.
     fn exhaustive(&self, _tier: Tier) -> bool {
         false
@@ -410,7 +416,7 @@ pub fn main(monitors: &[&dyn Monitor]) {
         };
         let mut col = Collector::new(seed, tier);
         run_one(m, &gen, idx, seed, &mut col);
-        emit(m, &args, tier, col, start, vec![]);
+        emit(m, &args, tier, col, start, vec![], None);
         return;
     }
 
@@ -419,7 +425,7 @@ pub fn main(monitors: &[&dyn Monitor]) {
         gens.retain(|x| x.name == g);
     }
     for g in gens.iter_mut() {
-        if args.scale != 1.0 {
+        if args.scale < 1.0 || (args.scale > 1.0 && m.scalable(g.name)) {
             g.count = ((g.count as f64 * args.scale).ceil() as u64).max(1);
         }
     }
@@ -532,10 +538,11 @@ pub fn main(monitors: &[&dyn Monitor]) {
     });
     let col = merged.into_inner().unwrap();
     let st = stalls.into_inner().unwrap();
-    emit(m, &args, args.tier, col, start, st);
+    let run_gens: Vec<Value> = gens.iter().map(|g| json!({"name": g.name, "count": g.count})).collect();
+    emit(m, &args, args.tier, col, start, st, Some(run_gens));
 }
 
-fn emit(m: &dyn Monitor, args: &Args, tier: Tier, mut col: Collector, start: Instant, stalls: Vec<Value>) {
+fn emit(m: &dyn Monitor, args: &Args, tier: Tier, mut col: Collector, start: Instant, stalls: Vec<Value>, run_gens: Option<Vec<Value>>) {
     if args.replay.is_none() {
         m.finish(&mut col);
     }
@@ -587,6 +594,9 @@ fn emit(m: &dyn Monitor, args: &Args, tier: Tier, mut col: Collector, start: Ins
     o.insert("assumptions".into(), json!(m.assumptions()));
     o.insert("exhaustive".into(), json!(m.exhaustive(tier)));
     o.insert("wall_s".into(), json!(start.elapsed().as_secs_f64()));
-    o.insert("gens".into(), json!(m.gens(tier).iter().map(|g| json!({"name": g.name, "count": g.count})).collect::<Vec<_>>()));
+    // the generator sizes of this very run (after --gen / --scale), not the tier's base sizes
+    let base_gens: Vec<Value> = m.gens(tier).iter().map(|g| json!({"name": g.name, "count": g.count})).collect();
+    o.insert("gens".into(), json!(run_gens.unwrap_or(base_gens)));
+    o.insert("scale".into(), json!(args.scale));
     println!("LRV-RESULT {}", Value::Object(o));
 }
